@@ -225,6 +225,9 @@ def _iterate(lazy, where):
     return out
 
 
+iterate = _iterate          # (name used by c07)
+
+
 def tup(p, where, n):
     v = Payload.get(p)
     if not isinstance(v, tuple) or len(v) != n:
